@@ -117,7 +117,7 @@ def gen_class(rng: random.Random, idx: int, bases: list[str], mode: str, init, k
         extras.append("def m(self, z=0): ...")
     if rng.random() < 0.15:
         extras.append("def __post_init__(self, *args): ...")
-    if mode == "handinit":
+    if mode == "handinit" or (mode == "plain" and rng.random() < 0.15):
         extras.append(rng.choice(["def __init__(self, p, /, q=1, *r, s, **t): ...", "def __init__(self): ...",
                                   "def __init__(self, only: int) -> None:\n    self.only = only"]))
     rng.shuffle(extras)
